@@ -55,4 +55,47 @@ theorem write_effect_full_fails :
       sget (pathParts path).1 root ≠ some val :=
   ⟨wNestedPath, wNested, .num [55], by decide, by decide, by decide⟩
 
+/-! #### /id/ -/
+
+def wAll : Env := ⟨fun _ => [], fun _ => true⟩
+def wGet (p : Bytes) : Req := ⟨.get, p, .empty, [], false, true⟩
+def wLoad (doc : Json) : State := (serve wAll (wReq .post cfgSlash (.val doc)) initState).1
+
+/-- `{"a":{"b":7},"a/b":{"@id":"s","v":1}}` -/
+def wSlashDoc : Json :=
+  .obj [([97], .obj [([98], .num [55])]), ([97, 47, 98], .obj [(idKey, .str [115]), ([118], .num [49])])]
+def wIdS : Bytes := [47, 105, 100, 47, 115]       -- "/id/s"
+
+/-- **an @id can resolve to a different object.**  The object tagged `"@id":"s"` sits under
+    the key `a/b`; `indexConfigObjects` files it under `path.Join("/config", "a/b")` =
+    `/config/a/b`, which names the member `b` of the object `a`: `GET /id/s` answers 200
+    with `7`. (Same for keys "", "." and a trailing "...".) -/
+theorem id_resolves_full_fails :
+    (wLoad wSlashDoc).rawCfgJSON = some wSlashDoc ∧
+    ([[97, 47, 98]], [115]) ∈ taggedJ wSlashDoc ∧
+    (serve wAll (wGet wIdS) (wLoad wSlashDoc)).2 = .okGet (some (.num [55])) [47, 99, 111, 110, 102, 105, 103, 47, 97, 47, 98] := by
+  decide
+
+/-- `{"@id":"r","v":1}` -/
+def wRootDoc : Json := .obj [(idKey, .str [114]), ([118], .num [49])]
+def wIdR : Bytes := [47, 105, 100, 47, 114]       -- "/id/r"
+
+/-- **an @id on the top-level object is not served.**  It is indexed as `/config`;
+    `handleConfigID` rewrites `/id/r` to `/config` and the mux answers 301 (to `/config/`). -/
+theorem id_on_root_full_fails :
+    (wLoad wRootDoc).index = [([114], [47, 99, 111, 110, 102, 105, 103])] ∧ (serve wAll (wGet wIdR) (wLoad wRootDoc)).2 = .redirect := by
+  decide
+
+/-- `{"o":{"@id":1000000}}` -/
+def wNumDoc : Json := .obj [([111], .obj [(idKey, .num [49, 48, 48, 48, 48, 48, 48])])]
+def wIdNum : Bytes := [47, 105, 100, 47, 49, 48, 48, 48, 48, 48, 48]     -- "/id/1000000"
+def wIdSci : Bytes := [47, 105, 100, 47, 49, 101, 43, 48, 54]     -- "/id/1e+06"
+
+/-- **a numeric @id is not reachable under its JSON spelling** from 1e6 upward: the index key
+    is `fmt.Sprintf("%v", 1e6)` = `1e+06`. -/
+theorem id_number_spelling_full_fails :
+    (serve wAll (wGet wIdNum) (wLoad wNumDoc)).2 = .fail .idUnknown ∧
+    (serve wAll (wGet wIdSci) (wLoad wNumDoc)).2 = .okGet (some (.obj [(idKey, .num [49, 48, 48, 48, 48, 48, 48])])) [47, 99, 111, 110, 102, 105, 103, 47, 111] := by
+  decide
+
 end CaddyModel.C12
